@@ -89,6 +89,15 @@ impl<'s> DocGen<'s> {
     /// literal (or variable) for expected type `t`
     pub fn value(&mut self, t: &q::Type, depth: usize, allow_var: bool) -> String {
         if self.noisy() { return self.any_literal(depth); }
+        if allow_var && self.rng.pct(6) {
+            if let q::Type::NonNullType(inner) = t {
+                // a NULLABLE variable with a non-null default where a non-null type is expected: allowed by the spec
+                let name = self.fresh("v");
+                let default = self.value_nn(inner, depth + 1, false);
+                self.cur_vars.push((name.clone(), ty_str(inner), Some(default)));
+                return format!("${}", name);
+            }
+        }
         if allow_var && self.rng.pct(18) {
             // a variable whose type is the location type or a non-null strengthening of it
             let vt = if self.rng.pct(30) { match t { q::Type::NonNullType(_) => ty_str(t), _ => format!("{}!", ty_str(t)) } } else { ty_str(t) };
